@@ -163,7 +163,8 @@ def run_group(pid, specdir, g, scratch, tier, stack, want_trace=None):
     """returns dict(name, obligations=[...], seconds, cmd, error)"""
     name = g['name']
     res = dict(name=name, mode=g.get('mode', 'H'), obligations=[], seconds=0.0, cmds=[], error=None,
-               functions=g.get('functions', []), cls=g.get('cls', 'contract'), bound=g.get('bound'))
+               functions=g.get('functions', []), cls=('bounded' if g.get('bounded') else g.get('cls', 'contract')),
+               bound=g.get('bound') or g.get('bound_note'))
     t0 = time.time()
     tu = os.path.join(specdir, g['tu'])
     wd = os.path.join(scratch, 'g_' + name)
@@ -364,10 +365,11 @@ def run_property(pid, tier, flags, only, scratch, t0, seed, evidence_path):
     for g in groups:
         if g.get('kind') == 'lemmas':
             src = open(os.path.join(specdir, g['tu'])).read()
-            for m in re.finditer(r'^void\s+(lemma_\w+)\s*\(void\)', src, re.M):
+            for m in re.finditer(r'^(?:void\s+(lemma_\w+)\s*\(void\)|STEP_LEMMA\((lemma_\w+),)', src, re.M):
                 e = dict(g)
-                e['name'] = '%s.%s' % (g['name'], m.group(1))
-                e['harness'] = m.group(1)
+                ln = m.group(1) or m.group(2)
+                e['name'] = '%s.%s' % (g['name'], ln)
+                e['harness'] = ln
                 e['mode'] = 'H'
                 e['cls'] = 'lemma'
                 expanded.append(e)
@@ -485,6 +487,8 @@ def run_property(pid, tier, flags, only, scratch, t0, seed, evidence_path):
     for o in unb:
         by_class[o['cls']] = by_class.get(o['cls'], 0) + 1
     known_keys = set(o['key'] for _, o in known_hits)
+    # obligations recorded as known findings are reported separately (coverage.known_findings), not counted as proved
+    unb = [o for o in unb if o['key'] not in known_keys]
     samples = []
     for o in ledger:
         if o['cls'] in ('contract', 'step-monitor', 'lemma', 'loop', 'ownership') and len(samples) < 8 and \
